@@ -1,5 +1,305 @@
-(* C05 -- literal zones pass through byte-for-byte. *)
-From OV Require Import Base.Strs Lex.Pins_Lexer Gen.LexerGen.
+(* C05 -- literal zones pass through every pipeline byte-for-byte.  ONLY statements closed by `exact`.
+ *)
+From OV Require Import Base.Strs Lex.Lexer Syn.Ast Syn.Parser Syn.Emitter Rt.Zones Rt.ZonesRt Rt.ZonesEx.
+Require Coq.Strings.String.
+Import Coq.Strings.String.StringSyntax.
+Open Scope N_scope.
+
+(* 1. fence pre-pass: for EVERY list of (raw, nfc) pairs, i.e. every NFC oracle *)
+Theorem C05_fence_scan_verbatim :
+  forall cls (lines : list (str * str)) outs spans,
+    fence_scan cls lines 1 0 None [] [] = inr (outs, spans) ->
+    outs = scan_lines cls lines None /\
+    map (fun sp => (sp_marker sp, sp_tag sp, span_text (join [c_nl] outs) sp)) spans =
+    map (fun z => (z_marker z, z_tag z, join [c_nl] (z_open z :: z_raws z ++ [z_close z]))) (zones_of_lines cls lines).
+Proof. exact fence_scan_verbatim. Qed.
+
+Theorem C05_fence_scan_lines :
+  forall cls (lines : list (str * str)) outs spans,
+    fence_scan cls lines 1 0 None [] [] = inr (outs, spans) ->
+    outs = scan_lines cls lines None /\ Forall2 (span_ok outs) spans (zones_of_lines cls lines).
+Proof. exact fence_scan_lines. Qed.
+
+Theorem C05_zones_of_lines_are_raw :
+  forall cls lines z, In z (zones_of_lines cls lines) ->
+    exists ro rc mids,
+      firstn (2 + length (z_raws z)) (skipn (z_idx z) lines) = (ro, z_open z) :: mids ++ [(rc, z_close z)] /\
+      map fst mids = z_raws z.
+Proof. exact zones_of_lines_are_raw. Qed.
+
+(* the zone contents depend on the RAW lines only: any two oracles give the same zones *)
+Theorem C05_zones_oracle_independent :
+  forall cls lines1 lines2,
+    map fst lines1 = map fst lines2 ->
+    map zview (zones_of_lines cls lines1) = map zview (zones_of_lines cls lines2).
+Proof. exact zones_oracle_independent. Qed.
+
+(* 2. tabs *)
+Theorem C05_tab_exempt :
+  forall s spans,
+    (tab_check s 0 1 1 spans = None <->
+     forall k, (k < length s)%nat -> nth k s 0 = c_tab -> in_spans (N.of_nat k) spans = true) /\
+    (forall l c, tab_check s 0 1 1 spans = Some (l, c) ->
+       exists p r, s = p ++ c_tab :: r /\ in_spans (len p) spans = false /\
+                   (forall k, (k < length p)%nat -> nth k p 0 = c_tab -> in_spans (N.of_nat k) spans = true) /\
+                   (l, c) = pos_after p 1 1).
+Proof. exact tab_exempt. Qed.
+
+(* 3. the lexer at a span start *)
+Theorem C05_step_fence_content :
+  forall st sp spans' o mid c rest,
+    memb c_nl o = false -> memb c_nl c = false ->
+    ls_in st = join [c_nl] (o :: mid ++ [c]) ++ rest ->
+    sp_end sp - sp_start sp = len (join [c_nl] (o :: mid ++ [c])) ->
+    let line := ls_line st in
+    let close_line := line + 1 + mid_count mid in
+    let t1 := mkTok FENCE_OPEN (TVFence (sp_marker sp) (sp_tag sp)) line (ls_col st) None in
+    let t2 := mkTok LITERAL_CONTENT (TVText (join [c_nl] mid)) (line + 1) 1 None in
+    let t3 := mkTok FENCE_CLOSE (TVText (sp_marker sp)) close_line 1 None in
+    step_fence st sp spans' =
+    match rest with
+    | nl :: rest' =>
+        Continue (mkLS rest' (Some nl) (sp_end sp + 1) (close_line + 1) 1
+                       (mkTok NEWLINE (TVText [c_nl]) close_line (len c + 1) None :: t3 :: t2 :: t1 :: ls_toks st)
+                       (ls_reps st) (ls_brk st) spans')
+    | [] =>
+        Continue (mkLS [] (last_chr (join [c_nl] (o :: mid ++ [c]))) (sp_end sp) (close_line + 1) 1
+                       (t3 :: t2 :: t1 :: ls_toks st) (ls_reps st) (ls_brk st) spans')
+    end.
+Proof. exact step_fence_content. Qed.
+
+Theorem C05_step_fence_content_text :
+  forall st sp spans' o content c rest,
+    memb c_nl o = false -> memb c_nl c = false ->
+    ls_in st = o ++ c_nl :: content ++ c_nl :: c ++ rest ->
+    sp_end sp - sp_start sp = len (o ++ c_nl :: content ++ c_nl :: c) ->
+    exists st', step_fence st sp spans' = Continue st' /\
+      ls_in st' = tl rest /\ ls_spans st' = spans' /\
+      exists extra, ls_toks st' = extra ++
+        [mkTok FENCE_CLOSE (TVText (sp_marker sp)) (ls_line st + 1 + N.of_nat (length (split_on c_nl content))) 1 None;
+         mkTok LITERAL_CONTENT (TVText content) (ls_line st + 1) 1 None;
+         mkTok FENCE_OPEN (TVFence (sp_marker sp) (sp_tag sp)) (ls_line st) (ls_col st) None] ++ ls_toks st.
+Proof. exact step_fence_content_text. Qed.
+
+Theorem C05_step_fence_empty_zone :
+  forall st sp spans' o c rest,
+    memb c_nl o = false -> memb c_nl c = false ->
+    ls_in st = o ++ c_nl :: c ++ rest ->
+    sp_end sp - sp_start sp = len (o ++ c_nl :: c) ->
+    exists st', step_fence st sp spans' = Continue st' /\ ls_in st' = tl rest /\
+      exists extra, ls_toks st' = extra ++
+        [mkTok FENCE_CLOSE (TVText (sp_marker sp)) (ls_line st + 1) 1 None;
+         mkTok LITERAL_CONTENT (TVText []) (ls_line st + 1) 1 None;
+         mkTok FENCE_OPEN (TVFence (sp_marker sp) (sp_tag sp)) (ls_line st) (ls_col st) None] ++ ls_toks st.
+Proof. exact step_fence_empty_zone. Qed.
+
+(* 1 + 3 for ALL inputs: at the start of every recorded span the lexer emits FENCE_OPEN(marker, tag),
+   LITERAL_CONTENT(raw zone lines joined by newline), FENCE_CLOSE *)
+Theorem C05_lexer_zone_content_raw :
+  forall cls (lines : list (str * str)) outs spans,
+    fence_scan cls lines 1 0 None [] [] = inr (outs, spans) ->
+    Forall2 (fun sp z =>
+      sp_marker sp = z_marker z /\ sp_tag sp = z_tag z /\
+      forall st spans',
+        ls_in st = skipn (N.to_nat (sp_start sp)) (join [c_nl] outs) ->
+        memb c_nl (z_open z) = false -> memb c_nl (z_close z) = false ->
+        exists st' extra,
+          step_fence st sp spans' = Continue st' /\ ls_spans st' = spans' /\
+          ls_toks st' = extra ++
+            [mkTok FENCE_CLOSE (TVText (z_marker z)) (ls_line st + 1 + mid_count (z_raws z)) 1 None;
+             mkTok LITERAL_CONTENT (TVText (join [c_nl] (z_raws z))) (ls_line st + 1) 1 None;
+             mkTok FENCE_OPEN (TVFence (z_marker z) (z_tag z)) (ls_line st) (ls_col st) None] ++ ls_toks st)
+      spans (zones_of_lines cls lines).
+Proof. exact lexer_zone_content_raw. Qed.
+
+(* 4. the parser on the zone tokens *)
+Theorem C05_parse_zone_tokens :
+  forall sp st tO tC tX nxt rest marker tag c,
+    ptoks st = tO :: tC :: tX :: nxt :: rest ->
+    tk tO = FENCE_OPEN -> tv tO = TVFence marker tag ->
+    tk tC = LITERAL_CONTENT -> tv tC = TVText c ->
+    tk tX = FENCE_CLOSE ->
+    parse_literal_zone sp st = POk (VZone c (norm_tag sp tag) marker) (Parser.adv (Parser.adv (Parser.adv st))) /\
+    ptoks (Parser.adv (Parser.adv (Parser.adv st))) = nxt :: rest.
+Proof. exact parse_zone_tokens. Qed.
+
+Theorem C05_parse_zone_tokens_nocontent :
+  forall sp st tO tX nxt rest marker tag,
+    ptoks st = tO :: tX :: nxt :: rest ->
+    tk tO = FENCE_OPEN -> tv tO = TVFence marker tag -> tk tX = FENCE_CLOSE ->
+    parse_literal_zone sp st = POk (VZone [] (norm_tag sp tag) marker) (Parser.adv (Parser.adv st)) /\
+    ptoks (Parser.adv (Parser.adv st)) = nxt :: rest.
+Proof. exact parse_zone_tokens_nocontent. Qed.
+
+Theorem C05_parse_zone_tokens_emptycontent :
+  forall sp st tO tC tX nxt rest marker tag,
+    ptoks st = tO :: tC :: tX :: nxt :: rest ->
+    tk tO = FENCE_OPEN -> tv tO = TVFence marker tag ->
+    tk tC = LITERAL_CONTENT -> tv tC = TVText [] -> tk tX = FENCE_CLOSE ->
+    parse_literal_zone sp st = POk (VZone [] (norm_tag sp tag) marker) (Parser.adv (Parser.adv (Parser.adv st))).
+Proof. exact parse_zone_tokens_emptycontent. Qed.
+
+Theorem C05_parse_zone_tokens_unterminated :
+  forall sp st tO marker tag,
+    cur st = tO -> tk tO = FENCE_OPEN -> tv tO = TVFence marker tag ->
+    (let st1 := Parser.adv st in
+     let st2 := if is LITERAL_CONTENT st1 then Parser.adv st1 else st1 in
+     is FENCE_CLOSE st2 = false) ->
+    parse_literal_zone sp st = PErr e006p (tline tO) (tcol tO).
+Proof. exact parse_zone_tokens_unterminated. Qed.
+
+(* 5. the emitter *)
+Theorem C05_emit_zone_lines_verbatim :
+  forall key content tag marker leading trailing n,
+    emit_assignment_lines key (VZone content tag marker) leading trailing n =
+    emit_leading leading n ++
+    (ind n ++ key ++ s_assign) ::
+    match content with
+    | [] => [ind n ++ marker ++ tag_str tag; ind n ++ marker]
+    | _ => [ind n ++ marker ++ tag_str tag; content; ind n ++ marker]
+    end.
+Proof. exact emit_zone_lines_verbatim. Qed.
+
+Theorem C05_emit_bare_zone_lines_verbatim :
+  forall key target pre content tag marker zl zt post leading n,
+    emit_node_lines (NBlock key target (pre ++ NAssign [] (VZone content tag marker) zl zt :: post) leading) n =
+    (emit_leading leading n ++
+     [ind n ++ key ++ (match truthy target with Some t => [c_lbr; 8594; 167] ++ t ++ [c_rbr] | None => [] end) ++ [c_colon]] ++
+     flat_map (child_lines n) pre) ++
+    match content with
+    | [] => [ind (S n) ++ marker ++ tag_str tag; ind (S n) ++ marker]
+    | _ => [ind (S n) ++ marker ++ tag_str tag; content; ind (S n) ++ marker]
+    end ++ flat_map (child_lines n) post.
+Proof. exact emit_bare_zone_lines_verbatim. Qed.
+
+Theorem C05_emit_zone_text_verbatim :
+  forall key content tag marker leading trailing n (pre post : list str),
+    content <> [] ->
+    join [c_nl] (pre ++ emit_assignment_lines key (VZone content tag marker) leading trailing n ++ post) =
+    (nlcat (pre ++ emit_leading leading n ++ [ind n ++ key ++ s_assign]) ++ (ind n ++ marker ++ tag_str tag) ++ [c_nl])
+    ++ content ++
+    (c_nl :: join [c_nl] ((ind n ++ marker) :: post)).
+Proof. exact emit_zone_text_verbatim. Qed.
+
+Theorem C05_emit_zone_text_empty :
+  forall key tag marker leading trailing n (pre post : list str),
+    join [c_nl] (pre ++ emit_assignment_lines key (VZone [] tag marker) leading trailing n ++ post) =
+    nlcat (pre ++ emit_leading leading n ++ [ind n ++ key ++ s_assign]) ++ (ind n ++ marker ++ tag_str tag) ++
+    c_nl :: join [c_nl] ((ind n ++ marker) :: post).
+Proof. exact emit_zone_text_empty. Qed.
+
+(* 6. the composition: emit -> lines -> fence pre-pass -> tab check -> lexer -> parser *)
+Theorem C05_tokenize_zone_doc :
+  forall cls nfcf name key content tag marker,
+    name_ok name = true -> key_ok key = true -> zone_ok marker content = true -> tag_ok cls tag = true ->
+    (forall l, In l (fixed_lines name key tag marker) -> nfcf l = l) ->
+    exists toks,
+      tokenize cls false (map (fun l => (l, nfcf l)) (zone_doc_lines name key content tag marker)) = LexOk toks (lex_reps key) /\
+      map (fun t => (tk t, tv t)) toks = zone_doc_shape name key content tag marker.
+Proof. exact tokenize_zone_doc. Qed.
+
+Theorem C05_zone_roundtrip :
+  forall cls numcanon holo strict nfcf name key content tag marker,
+    name_ok name = true -> key_ok key = true -> zone_ok marker content = true -> tag_ok cls tag = true ->
+    (forall l, In l (fixed_lines name key tag marker) -> nfcf l = l) ->
+    parse_model cls numcanon holo strict
+      (lines_of_raw_nfc nfcf (emit (u_space cls) (zone_doc name key content tag marker))) =
+    PRDoc (zone_doc name key content tag marker) (lex_reps key) [].
+Proof. exact zone_roundtrip. Qed.
+
+Theorem C05_zone_roundtrip_ascii :
+  forall cls numcanon holo strict nfcf name key content tag marker,
+    name_ok name = true -> key_ok key = true -> zone_ok marker content = true -> tag_ok cls tag = true ->
+    forallb is_ascii (tag_str tag) = true ->
+    (forall l, forallb is_ascii l = true -> nfcf l = l) ->
+    parse_model cls numcanon holo strict
+      (lines_of_raw_nfc nfcf (emit (u_space cls) (zone_doc name key content tag marker))) =
+    PRDoc (zone_doc name key content tag marker) (lex_reps key) [].
+Proof. exact zone_roundtrip_ascii. Qed.
+
+(* the statement without the content-line condition, and its refutation *)
+Definition C05_zone_roundtrip_full : Prop :=
+  forall cls numcanon holo strict nfcf name key content tag marker,
+    name_ok name = true -> key_ok key = true -> marker_ok marker = true -> tag_ok cls tag = true ->
+    (forall l, In l (fixed_lines name key tag marker) -> nfcf l = l) ->
+    parse_model cls numcanon holo strict (lines_of_raw_nfc nfcf (emit (u_space cls) (zone_doc name key content tag marker))) =
+    PRDoc (zone_doc name key content tag marker) (lex_reps key) [].
+
+Theorem C05_zone_roundtrip_full_refuted : ~ C05_zone_roundtrip_full.
+Proof. exact zone_roundtrip_full_refuted. Qed.
+
+Theorem C05_zone_roundtrip_refuted_early_close :
+  exists content,
+    zone_ok bt3 content = false /\
+    pipeline id_oracle (zone_doc (lit "DOC") (lit "KEY") content None bt3) =
+    PRDoc (zone_doc (lit "DOC") (lit "KEY") (lit "a") None bt3) [] [].
+Proof. exact zone_roundtrip_refuted_early_close. Qed.
+
+Theorem C05_zone_roundtrip_refuted_unterminated :
+  exists content,
+    zone_ok bt3 content = false /\
+    pipeline id_oracle (zone_doc (lit "DOC") (lit "KEY") content None bt3) = PRLexErr (lit "E006") 5 1.
+Proof. exact zone_roundtrip_refuted_unterminated. Qed.
+
+Theorem C05_zone_roundtrip_refuted_nested :
+  exists content,
+    zone_ok bt3 content = false /\
+    pipeline id_oracle (zone_doc (lit "DOC") (lit "KEY") content None bt3) = PRLexErr (lit "E007") 4 1.
+Proof. exact zone_roundtrip_refuted_nested. Qed.
+
+Theorem C05_tag_ok_refuted_empty :
+  tag_ok cls0 (Some []) = false /\
+  pipeline id_oracle (zone_doc (lit "DOC") (lit "KEY") (lit "x") (Some []) bt3) =
+  PRDoc (zone_doc (lit "DOC") (lit "KEY") (lit "x") None bt3) [] [].
+Proof. exact tag_ok_refuted_empty. Qed.
+
+Theorem C05_tag_ok_refuted_padded :
+  tag_ok cls0 (Some (lit " py")) = false /\
+  pipeline id_oracle (zone_doc (lit "DOC") (lit "KEY") (lit "x") (Some (lit " py")) bt3) =
+  PRDoc (zone_doc (lit "DOC") (lit "KEY") (lit "x") (Some (lit "py")) bt3) [] [].
+Proof. exact tag_ok_refuted_padded. Qed.
+
+(* the empty zone *)
+Theorem C05_empty_zone_roundtrip :
+  forall cls numcanon holo strict nfcf name key tag marker,
+    name_ok name = true -> key_ok key = true -> marker_ok marker = true -> tag_ok cls tag = true ->
+    (forall l, In l (fixed_lines name key tag marker) -> nfcf l = l) ->
+    parse_model cls numcanon holo strict (lines_of_raw_nfc nfcf (emit (u_space cls) (zone_doc name key [] tag marker))) =
+    PRDoc (zone_doc name key [] tag marker) (lex_reps key) [].
+Proof. exact empty_zone_roundtrip. Qed.
+
+Theorem C05_empty_zone_distinct :
+  forall cls numcanon holo strict nfcf name key tag marker,
+    name_ok name = true -> key_ok key = true -> marker_ok marker = true -> tag_ok cls tag = true ->
+    (forall l, In l (fixed_lines name key tag marker) -> nfcf l = l) ->
+    forall v, v = VAbsent \/ v = VStr [] ->
+      exists d reps warns,
+        parse_model cls numcanon holo strict (lines_of_raw_nfc nfcf (emit (u_space cls) (zone_doc name key [] tag marker))) =
+        PRDoc d reps warns /\
+        dsections d = [NAssign key (VZone [] tag marker) [] None] /\
+        dsections d <> [NAssign key v [] None].
+Proof. exact empty_zone_distinct. Qed.
+
+Theorem C05_empty_zone_example :
+  pipeline id_oracle (doc_with (VZone [] None bt3)) = PRDoc (doc_with (VZone [] None bt3)) [] [] /\
+  pipeline id_oracle (doc_with (VStr [])) = PRDoc (doc_with (VStr [])) [] [] /\
+  pipeline id_oracle (doc_with VAbsent) = PRDoc (mkDoc (lit "DOC") None None false [] [] []) [] [].
+Proof. exact empty_zone_example. Qed.
+
+(* 7. non-vacuity: TAB, NFD pair under an oracle that changes it, ===END===, ::, ->, ---, shorter backtick runs *)
+Theorem C05_example_hostile_content :
+  zone_ok bt3 ex_content = true /\
+  nfc_toy (lit "caf" ++ nfd_e) <> lit "caf" ++ nfd_e /\
+  pipeline nfc_toy ex_doc = PRDoc ex_doc [] [].
+Proof. exact (conj ex_zone_ok (conj ex_oracle_differs ex_roundtrip_by_theorem)). Qed.
+
+Theorem C05_example_raw_inside_nfc_outside :
+  fence_scan cls0 ex_lines 1 0 None [] [] =
+  inr ([lit "caf" ++ [233]; bt3; lit "caf" ++ nfd_e; lit "a" ++ [c_tab] ++ lit "b"; bt3], [mkSpan 5 22 bt3 None]).
+Proof. exact ex_scan_raw_inside_nfc_outside. Qed.
+
+(* ---- tie to the current source text ---- *)
+From OV Require Import Lex.Pins_Lexer Gen.LexerGen.
 
 Theorem C05_pin_fence :
   lexer_fence_pattern = pinned_lexer_fence_pattern /\ lexer_token_patterns = pinned_lexer_token_patterns.
